@@ -36,6 +36,7 @@ for _e, _n, _q, _t in (('h_subpacket_decode', 'subpacket', range(0, 9), range(0,
 
 # ------------------------------------------------------------------ C09 (arithmetic primitives)
 COIN = {'tmcg_mpz_srandomm': 'vfstub_randomm', 'tmcg_mpz_ssrandomm': 'vfstub_randomm', 'tmcg_mpz_wrandomm': 'vfstub_randomm',
+        'tmcg_mpz_wrandom_ui': 'vfstub_random_ui', 'tmcg_mpz_srandom_ui': 'vfstub_random_ui', 'tmcg_mpz_ssrandom_ui': 'vfstub_random_ui',
         'tmcg_mpz_srandomb': 'vfstub_randomb', 'tmcg_mpz_ssrandomb': 'vfstub_randomb', 'tmcg_mpz_wrandomb': 'vfstub_randomb'}
 def C09(name, entry, desc, symbolic, tu=('mpz_spowm.cc',), W=5, WT=6, fp=4, fpT=5, pslice=True, **kw):
     qs = [{'H_P': p} for p in range(3, 1 << W, 2)] if pslice else None
@@ -164,15 +165,15 @@ PROTO8('outgroup', 'h_outgroup', 'key = u*g^x with u outside G plus a proof hone
 PROTO8('bad', 'h_bad', 'arbitrary / truncated contribution: accepted only if complete and key in G; refused => key and count unchanged', 'key value in [-2,2p), c, r in [-q,2q), number of tokens present')
 
 # ------------------------------------------------------------------ C06 (parameter validation == specification)
-def C06(name, entry, tu, desc):
-    mk = lambda W: [dict(H_P=p, H_W=W, VF_BITS=2 * W + 4) for p in range(0, 1 << W)]
+def C06(name, entry, tu, desc, qsel=None):
+    mk = lambda W: [dict(H_P=p, H_W=W, VF_BITS=2 * W + 4) for p in range(0, 1 << W) if (qsel is None or W > 4 or p in qsel)]
     H(id='C06_' + name, property='C06', src='C06_groups.cc', entry=entry, tu=tu, unwind=24, replace=PROTO_REPLACE,
       defines={'H_MAXDRAWS': 4, 'MINISTL_STREAM_CAP': 256, 'H_DBITS': 4, 'H_HMAX': 5, 'MINISTL_STRING_MINCAP': 63}, config={'TMCG_MAX_FPOWM_T': 8},
       desc=desc, symbolic='q, k / h, g in [-1, 2^W+2), canonical flag, element a in [-2, p+3), hash oracle outputs', assumptions=PROTO_ASSUME,
       bounds='every p in [0, 2^W), W=4 (quick) / 5 (thorough), one query per p; F_size=3, G_size=2; at most 4 generator candidates',
       slices=mk(4), backend='kissat', memgb=6, tiers={'thorough': {'slices': mk(5), 'timeout': 3000}})
-C06('vtmf', 'h_vtmf_group', ['BarnettSmartVTMF_dlog.cc', 'mpz_spowm.cc', 'mpz_sprime.cc'], 'BarnettSmartVTMF_dlog::CheckGroup/CheckElement == specification (random and canonical generator)')
-C06('pvss', 'h_pvss_group', ['PedersenVSS.cc', 'mpz_spowm.cc', 'mpz_sprime.cc'], 'PedersenVSS::CheckGroup/CheckElement == specification (verifiable generator, h != g)')
+C06('vtmf', 'h_vtmf_group', ['NaorPinkasEOTP.cc', 'JareckiLysyanskayaASTC.cc', 'PedersenVSS.cc', 'BarnettSmartVTMF_dlog.cc', 'mpz_spowm.cc', 'mpz_sprime.cc'], 'BarnettSmartVTMF_dlog::CheckGroup/CheckElement == specification (random and canonical generator)')
+C06('pvss', 'h_pvss_group', ['NaorPinkasEOTP.cc', 'JareckiLysyanskayaASTC.cc', 'PedersenVSS.cc', 'BarnettSmartVTMF_dlog.cc', 'mpz_spowm.cc', 'mpz_sprime.cc'], 'PedersenVSS::CheckGroup/CheckElement == specification (verifiable generator, h != g)')
 
 # ------------------------------------------------------------------ C16 (verifiers == textbook)
 ASTC_TU = ['CanettiGennaroJareckiKrawczykRabinASTC.cc', 'GennaroJareckiKrawczykRabinDKG.cc', 'JareckiLysyanskayaASTC.cc', 'PedersenVSS.cc', 'mpz_spowm.cc', 'mpz_sprime.cc']
@@ -217,8 +218,8 @@ PROTO4('vtmf_decrypt', 'h_w_decrypt', 'decryption share computed with a key othe
 # ------------------------------------------------------------------ C01
 H(id='C01_cs_xor', property='C01_unregistered', src='C01_card.cc', entry='h_cs_xor', tu=['SchindelhauerTMCG.cc', 'TMCG_CardSecret.cc', 'TMCG_PublicKey.cc', 'TMCG_Card.cc'], unwind=6, unwindset={'_ZNSt11char_traitsIcE6lengthEPKc.0': 64, '_ZNSs6appendEPKcm.1': 64}, timeout=1500, replace=PROTO_REPLACE,
   defines={'VF_BITS': 12, 'H_MAXDRAWS': 40, 'H_DBITS': 4, 'MINISTL_STREAM_CAP': 128}, config={'TMCG_MAX_FPOWM_T': 8, 'TMCG_MAX_PLAYERS': 4, 'TMCG_MAX_TYPEBITS': 3},
-  desc='quadratic-residue encoding: a fresh card secret preserves the type (bit columns XOR to 0) for k players', symbolic='player index, all random bits and masking values',
-  bounds='k = 2,3,4 players (one query each), w = 2 type bits; moduli set to 1 so that masking values are concrete (the bit logic does not depend on them)', assumptions=PROTO_ASSUME, slices=[{'H_KPL': k} for k in (2, 3, 4)], backend='kissat', memgb=8)
+  desc='quadratic-residue encoding: a fresh card secret preserves the type (bit columns XOR to 0) for k players', symbolic='all random bits of the other players (player count and masking player enumerated by slices)',
+  bounds='k = 2,3,4 players (one query each), w = 2 type bits; moduli set to 1 so that masking values are concrete (the bit logic does not depend on them)', assumptions=PROTO_ASSUME, slices=[{'H_KPL': k, 'H_IDX': i} for k in (2, 3, 4) for i in range(k)], backend='kissat', memgb=8)
 
 # ------------------------------------------------------------------ C11 (real text operators)
 H(id='C11_mpz_text', property='C11', src='C11_roundtrip.cc', entry='h_mpz_text', tu=['mpz_helper.cc'], unwind=12, defines={'VF_BITS': 13, 'H_VMAX': 4000, 'MINISTL_STREAM_CAP': 64},
@@ -248,3 +249,17 @@ H(id='C09_interpolate', property='C09', src='C09_arith.cc', entry='h_interpolate
 H(id='C19_simple_packets', property='C19', src='C19_openpgp.cc', entry='h_simple_packets', tu=PGP, unwind=10, models=GCRY_MODELS, defines={'H_PKMAX': 7},
   desc='PacketSedEncode / PacketUidEncode / PacketLitEncode byte layout; PacketBodyExtract(emitted packet) recovers tag and body', symbolic='payload bytes, packet kind, current time',
   bounds='payload 0..2 octets (quick) / 0..5 (thorough), one query per length', slices=[{'H_LEN': n} for n in range(0, 3)], tiers={'thorough': {'slices': [{'H_LEN': n} for n in range(0, 6)]}})
+
+# ------------------------------------------------------------------ C17 (two-party coin flip)
+EDCF_TU = ['JareckiLysyanskayaASTC.cc', 'mpz_spowm.cc', 'mpz_sprime.cc']
+PROTO('C17_unregistered', 'flip_honest', 'C17_flip.cc', 'h_flip_honest', 'two-party flip, both honest (transcript as fixed point): both accept, same coin = a_0 + a_1 mod q', 'all four share coins', tu=EDCF_TU,
+      groups=[GRP(7, 3, 2, 2)], groupsT=[GRP(11, 5, 3, 2), GRP(7, 3, 2, 2)], timeout=1500, memgb=14)
+PROTO('C17', 'flip_adversary', 'C17_flip.cc', 'h_flip_adversary', 'two-party flip against an arbitrary peer: acceptance => opening matches earlier commitment, output = own + peer share; own share revealed only after a valid commitment was read',
+      'own coins, peer commitment in [-1,p+2), peer openings in [-2q,2q], number of tokens delivered', tu=EDCF_TU, groups=[GRP(11, 5, 3, 2)], groupsT=[GRP(11, 5, 3, 2), GRP(7, 3, 2, 2), GRP(23, 11, 2, 2)], timeout=1500)
+PROTO('C01_unregistered', 'vtmf_open', 'C01_card.cc', 'h_vtmf_open', 'discrete-log encoding, 2 players: open card, masked by A then B, opens to its type with both shares; not without B unless c_1^x_B = 1',
+      'type, both keys, both masking exponents, all proof coins, digests, timing flag', tu=['SchindelhauerTMCG.cc', 'BarnettSmartVTMF_dlog.cc', 'VTMF_Card.cc', 'VTMF_CardSecret.cc', 'TMCG_CardSecret.cc', 'TMCG_Card.cc', 'TMCG_PublicKey.cc', 'mpz_spowm.cc', 'mpz_sprime.cc'],
+      groups=[dict(GRP(7, 3, 2, 2), H_TB=1)], groupsT=[dict(GRP(7, 3, 2, 2), H_TB=1), dict(GRP(11, 5, 3, 2), H_TB=2)], timeout=3000, in_tiers=('thorough',))
+HARNESSES[-1]['config'] = {'TMCG_MAX_FPOWM_T': 8, 'TMCG_MAX_PLAYERS': 4, 'TMCG_MAX_TYPEBITS': 3}
+HARNESSES[-1]['defines'] = dict(HARNESSES[-1]['defines'], H_MAXDRAWS=24, H_HMAX=10)
+C06('eotp', 'h_eotp_group', ['NaorPinkasEOTP.cc', 'JareckiLysyanskayaASTC.cc', 'PedersenVSS.cc', 'BarnettSmartVTMF_dlog.cc', 'mpz_spowm.cc', 'mpz_sprime.cc'], 'NaorPinkasEOTP: construction + CheckGroup/CheckElement == specification', qsel=(0, 1, 2, 7, 11, 13, 15))
+C06('rvss', 'h_rvss_group', ['NaorPinkasEOTP.cc', 'JareckiLysyanskayaASTC.cc', 'PedersenVSS.cc', 'BarnettSmartVTMF_dlog.cc', 'mpz_spowm.cc', 'mpz_sprime.cc'], 'JareckiLysyanskayaRVSS (also used by EDCF): construction + CheckGroup/CheckElement == specification (g != h)', qsel=(0, 1, 2, 7, 11, 13, 15))
